@@ -2897,6 +2897,7 @@ fn main() {
 	if mode == "all" || mode == "faithful" {
 		faithful(&mut cx, &work);
 		headers_mixed(&mut cx);
+		ext::list_limits(&mut cx, &work);
 	}
 	if mode == "all" || mode == "refuse" {
 		refusals(&mut cx);
